@@ -83,7 +83,7 @@ def redirect_pin_cases(res):
         loop = asyncio.get_running_loop()
         received = {}
         async def fake_cc(factory, host=None, port=None, ssl=None, server_hostname=None, **kw):
-            ci, reply = peers[(host, port)]
+            ci, reply = peers[(host.lower(), port)]          # host names are case-insensitive: whatever the spelling, the same peer answers
             proto = factory()
             log = received.setdefault((host, port), [])
             class T(cd.RecTransport):
@@ -122,6 +122,11 @@ def redirect_pin_cases(res):
             # (1) the second hop is pinned to ANOTHER certificate than the one it presents (which the first hop already showed)
             p1 = Path(tmp) / ("s1-%s-%d.db" % second); TOFUDatabase(p1).trust(second[0], second[1], cs[1]["cert"])
             scen.append(("second hop pinned to a different certificate", second, p1, peers, "changed"))
+            # (1a) the same, the redirect spelling the second hop's host in upper case: the pin is the host's, not the spelling's
+            hop2u = "gemini://%s%s/final" % (second[0].upper(), "" if second[1] == 1965 else ":%d" % second[1])
+            peers_u = {("a.example", 1965): (0, ("30 %s\r\n" % hop2u).encode()), second: (0, b"20 text/plain\r\nfinal")}
+            pu = Path(tmp) / ("s1u-%s-%d.db" % second); TOFUDatabase(pu).trust(second[0], second[1], cs[1]["cert"])
+            scen.append(("second hop pinned to a different certificate; the redirect spells its host in upper case", second, pu, peers_u, "changed"))
             # (1b) the same, but what the second hop presents is outside its validity period (expired / not yet valid): still a pin
             # mismatch, still refused before anything is sent
             for nm in ("expired", "notyet"):
